@@ -191,14 +191,19 @@ impl AutoTaskState {
 
     /// The task failed and needs rescheduling
     fn failure(&mut self, config: &AssociationConfig) {
+        // A retry is never scheduled for the current instant: a task that fails without ever
+        // awaiting (e.g. time sync when no system time is available) would otherwise be
+        // restarted forever by the synchronous loop in `Association::next_task`.
+        const MIN_RETRY_DELAY: Duration = Duration::from_millis(1);
+
         *self = match self {
             Self::Failed(backoff, _) => {
-                let delay = backoff.on_failure();
+                let delay = backoff.on_failure().max(MIN_RETRY_DELAY);
                 Self::Failed(backoff.clone(), Instant::now() + delay)
             }
             _ => {
                 let mut backoff = ExponentialBackOff::new(config.auto_tasks_retry_strategy);
-                let delay = backoff.on_failure();
+                let delay = backoff.on_failure().max(MIN_RETRY_DELAY);
                 Self::Failed(backoff, Instant::now() + delay)
             }
         }
